@@ -1,4 +1,5 @@
 import TensorModel.Proofs.LinalgLemmas
+import TensorModel.Proofs.FreshCopy
 /-!
   C09 — linear-algebra products equal the textbook sums of products.
 
@@ -348,89 +349,159 @@ theorem spec_eq_gemm_instance :
       | _, _ => false) = true := by
   constructor <;> decide
 
-/-! ### F50 — sliced matrix operand: leading dimension of a contiguous matrix -/
+/-! ### Non-contiguous view operands: BLAS reads a contiguous copy (the former findings F50, F53) -/
 
 def natOps : Ops Nat := ⟨0, (· + ·), (· * ·)⟩
 
-/-- Full statement for a row-major *view* operand `a : (m,k)` whose rows are `rs ≥ k` cells apart
-    (`a[i,l]` at `raw[i·rs + l]`, e.g. a column range of a wider matrix): the call `StdEng.MatMul`
-    makes (`lda = k`, from the shape) computes the textbook product. -/
-def gemm_mapping_view_full : Prop :=
-  ∀ (m n k rs : Nat) (A B C : List Nat), 0 < m → 0 < n → 0 < k → k ≤ rs →
-    A.length = (m - 1) * rs + k → B.length = k * n → C.length = m * n →
-    ∃ C', gemm natOps false false m n k A (mmParams false false false false false m k k n m n).lda.toNat
-        B n C n = .ok C' ∧
-      ∀ i j, i < m → j < n →
-        C'[i * n + j]? = some (sumTerms natOps ((List.range k).map fun l => rd A (i * rs + l) * rd B (l * n + j)))
+/-- An operand whose data-order flags say contiguous is handed to BLAS as it is (no copy, nothing allocated). -/
+theorem blasOperand_contiguous (ps : PState) (id : Nat) (t : Dense) (hget : ps.ds[id]? = some t)
+    (hc : t.ap.o.nonContig = false) :
+    (blasOperand id).run.run ps = (.ok id, ps) := by
+  simp [blasOperand, getObj, hget, hc, bind, ExceptT.bind, ExceptT.mk, ExceptT.bindCont, ExceptT.run, StateT.bind,
+    StateT.run, get, getThe, MonadStateOf.get, StateT.get, liftM, monadLift, MonadLift.monadLift, ExceptT.lift,
+    Functor.map, StateT.map, pure, ExceptT.pure, StateT.pure, Id.run]
 
-/-- It holds outside the defect region: when the row stride is the row length (the operand is not a
-    strided view — `Excl_ldView` is false for it). -/
-theorem gemm_mapping_view_partial :
-    ∀ (m n k rs : Nat) (A B C : List Nat), 0 < m → 0 < n → 0 < k → rs = k →
+/-- **A non-contiguous row-major view is handed to BLAS as a contiguous copy, made by coordinate**: the copy
+    has the view's shape, the strides of a contiguous row-major tensor, no non-contiguity flag and no pending
+    transpose (so `mmParams` / `mvParams` derive the leading dimension of a contiguous matrix for it and the
+    increment 1 is right), lives in a buffer that did not exist before, and holds at every coordinate `c` (its
+    row-major address) the view's element at `c` (the view's strided address); no cell that existed before is
+    changed. Any rank, any strides — column ranges, stepped slices, columns of a matrix, views of lazily
+    transposed tensors. -/
+theorem blasCopy_by_coordinate (st st' : St) (t r : Dense)
+    (hnc : t.ap.o.nonContig = true) (hcol : t.ap.o.col = false) (hlen1 : t.win.len ≠ 1)
+    (hnm : t.mask = none) (hlen0 : t.win.len ≠ 0) (hne : t.ap.shape ≠ [])
+    (hl : t.ap.strides.length = t.ap.shape.length) (hp : ∀ d ∈ t.ap.shape, 0 < d)
+    (hcap : t.win.len ≤ t.win.cap) (hbuf : t.win.buf < st.heap.size)
+    (hr : ∀ c ∈ allCoords t.ap.shape, 0 ≤ dot c t.ap.strides ∧ dot c t.ap.strides < (t.win.len : Int))
+    (hs : Has st t.win.buf t.win.off t.win.len)
+    (h : blasCopy st t = .ok (st', r)) :
+    r.ap.shape = t.ap.shape ∧ r.ap.strides = calcStrides t.ap.shape ∧ r.ap.o.nonContig = false ∧
+    r.ap.o.col = false ∧ r.old = none ∧
+    r.win = ⟨st.heap.size, 0, (prod t.ap.shape).toNat, (prod t.ap.shape).toNat⟩ ∧
+    (∀ c ∈ allCoords t.ap.shape,
+      TM.cell st' st.heap.size (rowRank t.ap.shape c).toNat =
+        some (TM.cellD st t.win.buf (t.win.off + (dot c t.ap.strides).toNat))) ∧
+    (∀ b' k', b' < st.heap.size → TM.cell st' b' k' = TM.cell st b' k') := by
+  have hnemp : t.shape.isEmpty = false := by
+    unfold Dense.shape; cases hsh : t.ap.shape with
+    | nil => exact absurd hsh hne
+    | cons _ _ => rfl
+  unfold blasCopy newDenseZero at h
+  simp only [hcol, Bool.false_eq_true, if_false, hnemp, Dense.fresh, St.alloc] at h
+  generalize hr0 : (Dense.mk _ _ _ _ _ _ _ _ _) = r0 at h
+  have hsh0 : r0.ap.shape = t.ap.shape := by rw [← hr0]; rfl
+  have hstr0 : r0.ap.strides = calcStrides t.ap.shape := by rw [← hr0]; rfl
+  have hwin0 : r0.win = ⟨st.heap.size, 0, (prod t.ap.shape).toNat, (prod t.ap.shape).toNat⟩ := by
+    rw [← hr0]; simp [Dense.shape, totalSize]
+  have hflags0 : r0.ap.o.nonContig = false ∧ r0.ap.o.col = false ∧ r0.old = none := by
+    rw [← hr0]; exact ⟨rfl, rfl, rfl⟩
+  have hfast : (!r0.requiresIterator && !t.requiresIterator && Dense.sameOrder r0 t) = false := by
+    have hl1' : (t.win.len == 1) = false := by simpa using hlen1
+    simp [Dense.requiresIterator, hl1', hnc]
+  obtain ⟨hrr, hv, hf⟩ := freshCopy_by_coordinate st st' t r0 r hsh0 hstr0 hwin0 hfast hnm hlen0 hl hp hcap hbuf hr hs
+    (by simpa [Dense.shape, totalSize] using h)
+  subst hrr
+  exact ⟨hsh0, hstr0, hflags0.1, hflags0.2.1, hflags0.2.2, hwin0, hv, hf⟩
+
+/-- the contiguous listing of a row-major matrix view `(m,k)` whose rows are `rs` cells apart (`a[i,l]` at
+    `raw[i·rs + l]`): what `blasCopy_by_coordinate` says the copy's window holds (entry `(i,l)` at `i·k + l`) -/
+def compactRows {α} [Inhabited α] (m k rs : Nat) (A : List α) : List α :=
+  (List.range (m * k)).map fun p => rd A (p / k * rs + p % k)
+
+/-- the contiguous listing of a vector view of `n` entries `s` cells apart -/
+def compactVec {α} [Inhabited α] (n s : Nat) (A : List α) : List α := (List.range n).map fun i => rd A (i * s)
+
+theorem compactRows_get {α} [Inhabited α] (m k rs : Nat) (A : List α) (i l : Nat) (hi : i < m) (hl : l < k) :
+    rd (compactRows m k rs A) (i * k + l) = rd A (i * rs + l) := by
+  have hlt : i * k + l < m * k := by
+    have h1 : (i + 1) * k ≤ m * k := Nat.mul_le_mul_right k (by omega)
+    rw [Nat.succ_mul] at h1
+    omega
+  unfold compactRows rd
+  rw [List.getElem?_map, List.getElem?_range hlt]
+  simp [div_cell k i l hl, mod_cell k i l hl]
+
+/-- contiguous operands are their own listing -/
+theorem compactVec_unit {α} [Inhabited α] (A : List α) : compactVec A.length 1 A = A := by
+  apply List.ext_getElem?
+  intro i
+  unfold compactVec rd
+  by_cases hi : i < A.length
+  · rw [List.getElem?_map, List.getElem?_range hi]
+    simp [List.getElem?_eq_getElem hi]
+  · rw [List.getElem?_eq_none (by simpa using hi), List.getElem?_eq_none (by omega)]
+
+/-- **`gemm_mapping_view`** (unguarded; formerly `_partial` + `_full_fails`, finding F50). For a row-major
+    *view* operand `a : (m,k)` whose rows are `rs ≥ k` cells apart (`a[i,l]` at `raw[i·rs + l]`, e.g. a column
+    range or a stepped row range of a wider matrix) the call `StdEng.MatMul` makes — on the contiguous copy of
+    the view, with `lda = k` from the shape — computes the textbook product of the view's entries. -/
+theorem gemm_mapping_view :
+    ∀ (m n k rs : Nat) (A B C : List Nat), 0 < m → 0 < n → 0 < k → k ≤ rs →
     A.length = (m - 1) * rs + k → B.length = k * n → C.length = m * n →
-    ∃ C', gemm natOps false false m n k A (mmParams false false false false false m k k n m n).lda.toNat
-        B n C n = .ok C' ∧
+    ∃ C', gemm natOps false false m n k (compactRows m k rs A)
+        (mmParams false false false false false m k k n m n).lda.toNat B n C n = .ok C' ∧
       ∀ i j, i < m → j < n →
         C'[i * n + j]? = some (sumTerms natOps ((List.range k).map fun l => rd A (i * rs + l) * rd B (l * n + j))) := by
-  intro m n k rs A B C hm hn hk hrs hA hB hC
-  subst hrs
-  have hA' : A.length = m * rs := by rw [hA]; exact pred_mul_add m rs hm
-  obtain ⟨C', h1, _, h3⟩ := gemm_mapping natOps false false m n rs hm hn hk A B C hA' hB hC
+  intro m n k rs A B C hm hn hk _ _ hB hC
+  have hA' : (compactRows m k rs A).length = m * k := by simp [compactRows]
+  obtain ⟨C', h1, _, h3⟩ := gemm_mapping natOps false false m n k hm hn hk (compactRows m k rs A) B C hA' hB hC
   refine ⟨C', ?_, ?_⟩
   · exact h1
   · intro i j hi hj
     have := h3 i j hi hj
-    simpa [logIdx, natOps] using this
+    rw [this]
+    congr 2
+    apply List.map_congr_left
+    intro l hl
+    have hl' : l < k := by simpa using hl
+    simp only [logIdx, Bool.false_eq_true, if_false, natOps]
+    rw [compactRows_get m k rs A i l hi hl']
 
-/-- The full statement fails (finding F50). Witness: `a = t[:, 0:2]` of the 3×3 matrix `1..9`
-    (window `1..8`, row stride 3) times the 2×2 identity gives `1 2 / 3 4 / 5 6`, not `1 2 / 4 5 / 7 8`. -/
-theorem gemm_mapping_view_full_fails : ¬ gemm_mapping_view_full := by
-  intro h
-  obtain ⟨C', h1, h2⟩ := h 3 2 2 3 [1, 2, 3, 4, 5, 6, 7, 8] [1, 0, 0, 1] [0, 0, 0, 0, 0, 0]
-    (by decide) (by decide) (by decide) (by decide) (by decide) (by decide) (by decide)
-  have hc : C' = [1, 2, 3, 4, 5, 6] :=
-    Except.ok.inj (h1.symm.trans (rfl : _ = Except.ok [1, 2, 3, 4, 5, 6]))
-  have := h2 1 0 (by decide) (by decide)
-  rw [hc] at this
-  revert this
-  decide
+/-- the former witness of F50: `a = t[:, 0:2]` of the 3×3 matrix `1..9` (window `1..8`, row stride 3) times
+    the 2×2 identity is `1 2 / 4 5 / 7 8` (it used to be `1 2 / 3 4 / 5 6`) -/
+example : gemm natOps false false 3 2 2 (compactRows 3 2 3 [1, 2, 3, 4, 5, 6, 7, 8])
+    (mmParams false false false false false 3 2 2 2 3 2).lda.toNat [1, 0, 0, 1] 2 [0, 0, 0, 0, 0, 0] 2 =
+    .ok [1, 2, 4, 5, 7, 8] := rfl
 
-/-- the witness tensor lies in the region `Excl_ldView` (tag F50) -/
-theorem f50_witness_in_region :
-    Excl_ldView { ap := { shape := [3, 2], strides := [3, 1], fin := true, o := { nonContig := true } },
-                  win := ⟨0, 0, 8, 9⟩, dt := "f64", view := true } = true := by decide
+/-- non-vacuity of `blasCopy_by_coordinate`: the same view as a tensor (flagged non-contiguous by slicing) meets
+    the hypotheses, `blasOperand` does copy it, and the copy's window is the listing `compactRows` describes -/
+def bvSt : St := { heap := #[#[.src 0 0, .src 0 1, .src 0 2, .src 0 3, .src 0 4, .src 0 5, .src 0 6, .src 0 7, .src 0 8]] }
+def bvView : Dense := { ap := { shape := [3, 2], strides := [3, 1], fin := true, o := { nonContig := true } },
+                        win := ⟨0, 0, 8, 9⟩, dt := "f64", view := true }
+example : bvView.ap.o.nonContig = true ∧ bvView.mask = none ∧
+    (allCoords bvView.ap.shape).all (fun c => decide (0 ≤ dot c bvView.ap.strides) && decide (dot c bvView.ap.strides < 8)) = true ∧
+    (match blasCopy bvSt bvView with
+     | .ok (s, r) => r.ap.strides == [2, 1] && !r.ap.o.nonContig &&
+         s.heap[r.win.buf]? == some #[.src 0 0, .src 0 1, .src 0 3, .src 0 4, .src 0 6, .src 0 7]
+     | _ => false) = true := by decide
 
-/-! ### F53 — strided vector operand: increment 1 -/
-
-/-- Full statement: the inner product of two vector views with stride `s` (entry `i` at `raw[i·s]`,
-    windows of at least `(n-1)·s+1` and at most `n·s` cells, as slicing leaves them) as `StdEng.Inner`
-    computes it (`dot(len(A), A, 1, B, 1)`) is `Σ aᵢ·bᵢ`. -/
-def inner_mapping_full : Prop :=
-  ∀ (n s : Nat) (A B : List Nat), 0 < n → 0 < s → (n - 1) * s + 1 ≤ A.length → A.length ≤ n * s →
-    B.length = A.length →
-    dotu natOps A.length A B = .ok (sumTerms natOps ((List.range n).map fun i => rd A (i * s) * rd B (i * s)))
-
-/-- It holds for unit stride (contiguous vectors, lazily transposed vectors, column-major vectors). -/
-theorem inner_mapping_partial :
-    ∀ (n s : Nat) (A B : List Nat), 0 < n → s = 1 → (n - 1) * s + 1 ≤ A.length → A.length ≤ n * s →
-    B.length = A.length →
-    dotu natOps A.length A B = .ok (sumTerms natOps ((List.range n).map fun i => rd A (i * s) * rd B (i * s))) := by
-  intro n s A B hn hs hA hA2 hB
-  subst hs
-  have hl : A.length = n := by simp at hA hA2; omega
+/-- **`inner_mapping`** (unguarded; formerly `_partial` + `_full_fails`, finding F53). The inner product of two
+    vector views with strides `sa`, `sb` (entry `i` at `raw[i·s]`; windows of any length that holds the `n`
+    entries — they need not agree, `Inner` compares the numbers of elements) as `StdEng.Inner` computes it —
+    `dot(n, A', 1, B', 1)` on the contiguous copies — is `Σ aᵢ·bᵢ`. Unit stride: the operands themselves
+    (`compactVec_unit`). -/
+theorem inner_mapping :
+    ∀ (n sa sb : Nat) (A B : List Nat), 0 < n →
+    dotu natOps (compactVec n sa A).length (compactVec n sa A) (compactVec n sb B) =
+      .ok (sumTerms natOps ((List.range n).map fun i => rd A (i * sa) * rd B (i * sb))) := by
+  intro n sa sb A B hn
+  have hla : (compactVec n sa A).length = n := by simp [compactVec]
+  have hlb : (compactVec n sb B).length = n := by simp [compactVec]
   unfold dotu
-  rw [hl] at hB ⊢
+  rw [hla, hlb]
   have g0 : ¬ (n = 0) := by omega
-  have g2 : ¬ (B.length < n) := by omega
-  simp [g0, g2, pure, Except.pure, natOps]
+  simp only [beq_iff_eq, g0, if_false, Nat.lt_irrefl, pure, Except.pure, bind, Except.bind]
+  congr 2
+  apply List.map_congr_left
+  intro i hi
+  have hi' : i < n := by simpa using hi
+  simp only [natOps, compactVec, rd]
+  rw [List.getElem?_map, List.getElem?_range hi', List.getElem?_map, List.getElem?_range hi']
+  simp
 
-/-- The full statement fails (finding F53). Witness: `a = b = (1..6)[0:6:2]` (windows of 6 cells):
-    91 instead of 35. -/
-theorem inner_mapping_full_fails : ¬ inner_mapping_full := by
-  intro h
-  have h1 := h 3 2 [1, 2, 3, 4, 5, 6] [1, 2, 3, 4, 5, 6] (by decide) (by decide) (by decide) (by decide) (by decide)
-  have h2 : dotu natOps 6 [1, 2, 3, 4, 5, 6] [1, 2, 3, 4, 5, 6] = .ok 91 := rfl
-  exact absurd (Except.ok.inj (h2.symm.trans h1)) (by decide)
+/-- the former witness of F53: `a = b = (1..6)[0:6:2]` (windows of 5 cells): 35 (it used to be 91) -/
+example : dotu natOps 3 (compactVec 3 2 [1, 2, 3, 4, 5]) (compactVec 3 2 [1, 2, 3, 4, 5]) = .ok 35 := rfl
 
 /-! ### `TensorMul`'s axes bookkeeping -/
 
